@@ -365,9 +365,47 @@ def bounded_consecutive_captions(ctx, b):
                                                       "second_caption_one_row_below_previous": r2 == r1 + 1})
 
 
+def bounded_caption_sequences(ctx, b):
+    """what a caption shows does not depend on the caption before it: italic / plain captions in every order of two
+    and three (a caption that ends in italics followed by one that starts in italics, by a plain one, ...), each
+    opened by an italic preamble, a plain preamble + mid-row code, or a plain preamble"""
+    kinds = {"italic_pac": lambda r: [C.pac(r, 0, italics=True)], "midrow": lambda r: [C.pac(r), C.midrow(True)], "plain": lambda r: [C.pac(r)]}
+    for n in (2, 3):
+        for seq in itertools.product(kinds, repeat=n):
+            def one(seq=seq):
+                lines, t = [], 30
+                for i, kd in enumerate(seq):
+                    row = 3 + 4 * i                # (rows far apart: never one row below the previous caption)
+                    lines.append((C.timecode(t), [C.ctrl("ENM"), C.ctrl("RCL")] + kinds[kd](row) + C.text_words(f"cap{i}") + [C.ctrl("EDM"), C.ctrl("EOC")]))
+                    t += 120
+                lines.append((C.timecode(t), [C.ctrl("EDM")]))
+                caps = _SHARED_READER.read(C.scc_document(lines)).get_captions("en-US")
+                got = [(norm(cp.get_text()), all(it for ln in italic_flags(cp.nodes) for _, it in ln), balanced(cp.nodes)) for cp in caps]
+                exp = [(f"cap{i}", kd != "plain", True) for i, kd in enumerate(seq)]
+                return got == exp, {"captions (text, all italic, balanced)": got, "expected": exp}
+            b.guard(("sequence", seq), one, sample={"captions": seq})
+    # blanks sent as text at the start of a row are characters of the row (no mid-row code involved): kept exactly
+    for rows in ([(14, " ab"), (15, "cd")], [(13, "  x y"), (14, " z"), (15, "w")], [(14, "ab"), (15, " cd")], [(1, " a"), (2, " b")],
+                 [(7, "   indented"), (8, "flush")]):
+        def lead(rows=rows):
+            ws = [C.ctrl("ENM"), C.ctrl("RCL")]
+            for r, text in rows:
+                ws += [C.pac(r)] + C.text_words(text)
+            doc = C.scc_document([(C.timecode(30), ws + [C.ctrl("EDM"), C.ctrl("EOC")]), (C.timecode(200), [C.ctrl("EDM")])])
+            caps = _SHARED_READER.read(doc).get_captions("en-US")
+            # (Caption.get_text() strips the whole text: read the nodes)
+            got = [[x.rstrip() for x in "".join("\n" if nd.type_ == CaptionNode.BREAK else nd.content for nd in cp.nodes
+                                                if nd.type_ in (CaptionNode.BREAK, CaptionNode.TEXT)).split("\n")] for cp in caps]
+            return got == [[t for _, t in rows]], {"lines": got, "expected": [[t for _, t in rows]]}
+        b.guard(("leading_blanks", tuple(rows)), lead, sample={"rows": rows})
+
+
 def run(ctx):
     P = ctx.prove
     ctx.ground("tables", tables)
+    ctx.bounded("caption_sequences", "every order of two and three pop-on captions that are italic by preamble, italic by mid-row "
+                "code or plain: each caption's text is italic exactly as sent and balanced, whatever came before; rows that begin "
+                "with blanks sent as text keep them", lambda b: bounded_caption_sequences(ctx, b))
     ctx.bounded("consecutive_captions", "two pop-on captions in a row at rows (10,15) (14,15) (3,4) (15,14) (7,7): text, "
                 "no stray break node, vertical position of each caption's own row", lambda b: bounded_consecutive_captions(ctx, b))
     ctx.ground("doubling", doubling)
